@@ -15,6 +15,8 @@ import (
 	"os/exec"
 	"path/filepath"
 	"strings"
+	"syscall"
+	"time"
 
 	"verif/internal/bind"
 )
@@ -155,7 +157,31 @@ func run(prop string, hs harnessSpec, verif, repo, scratch string, args []string
 	cmd.Env = append(env, "VERIF_SCRATCH="+scratch, "VERIF_RACE_BIN="+raceBin)
 	cmd.Stdout = os.Stdout
 	cmd.Stderr = os.Stderr
-	if err := cmd.Run(); err != nil {
+	// Watchdog: a harness that does not finish (code under test blocking on something the scheduler does not
+	// model, e.g. a channel) is a harness error, never a verdict. The harness and its workers form one
+	// process group, which is killed as a whole.
+	cmd.SysProcAttr = &syscall.SysProcAttr{Setpgid: true}
+	limit := 4 * time.Hour
+	for i, a := range full {
+		if (a == "--tier" || a == "-tier") && i+1 < len(full) && full[i+1] == "thorough" {
+			limit = 24 * time.Hour
+		}
+	}
+	if err := cmd.Start(); err != nil {
+		fmt.Printf("HARNESS-ERROR running harness: %v\n", err)
+		return 2
+	}
+	done := make(chan error, 1)
+	go func() { done <- cmd.Wait() }()
+	select {
+	case err = <-done:
+	case <-time.After(limit):
+		syscall.Kill(-cmd.Process.Pid, syscall.SIGKILL)
+		<-done
+		fmt.Printf("HARNESS-ERROR harness %s did not finish within %v and was killed\n", hs.Dir, limit)
+		return 2
+	}
+	if err != nil {
 		if ee, ok := err.(*exec.ExitError); ok {
 			return ee.ExitCode()
 		}
